@@ -23,7 +23,7 @@ SPEC = {
     "assumptions": ["floats read as reals", "bin edges increasing"],
 }
 
-JOB_TIMEOUT = {"quick": 900, "thorough": 3000}
+JOB_TIMEOUT = {"quick": 400, "thorough": 3000}
 
 
 def _setup():
